@@ -67,7 +67,7 @@ Section Ops.
       create_chunk c (s_store s) off len w = COk st ps /\
       s_store s' = st1 /\ s_done s' = s_done s /\ s_fcomp s' = s_fcomp s /\
       rd = option_map (fun sg => read_segs sg st1 cm1) (buffer_segs ps rpos rn) /\
-      cmp = option_map (fun sg => beq_bytes (read_segs sg st1 cm1) data)
+      cmp = option_map (fun sg => compare_segs sg data st1 cm1)
                        (buffer_segs ps pos (N.of_nat (length data))) /\
       ((w = false /\ wr = WSkip /\ st1 = st /\ cm1 = zeros (N.to_nat (chunk_size ps))) \/
        (w = true /\ wr = WErr /\ st1 = st /\ cm1 = zeros (N.to_nat (chunk_size ps)) /\
@@ -300,6 +300,11 @@ Section Ops.
       destruct (inc_completed _ _ _); simpl; auto.
     - destruct (_ <? _); simpl; auto.
     - destruct (nth_error _ _); simpl; auto. destruct (f_pad _); simpl; auto.
+    - pose proof (create_chunk_ok files c eq_refl (cfg_laid cs lay) (s_store s) (idx * cs)
+                                  (chunk_index_size c idx) false Hlen) as K.
+      destruct (create_chunk c (s_store s) (idx * cs) (chunk_index_size c idx) false) as [|st|st ps]; simpl; auto.
+      + destruct K as (_ & (E & _) & _). congruence.
+      + destruct K as (_ & _ & _ & _ & _ & (E & _) & _). congruence.
   Qed.
 
   Theorem run_store_length : forall ops s, length (s_store s) = length files ->
